@@ -55,6 +55,34 @@ def _f8(cex):
     return cex.get("kind") in ("derived_smaller_than_source", "derived_differs_on_prefix") and cex.get("source_subadditive") is False
 
 
+@matcher("k4_analysis_limit_zero")
+def _k4a(cex):
+    return cex.get("kind") == "analysis_not_naive" and cex.get("limit") == 0
+
+
+@matcher("k5_tua_never_releases")
+def _k5(cex):
+    return cex.get("kind") == "analysis_not_naive" and cex.get("tua_never_releases") is True and cex.get("limit", 1) >= 1
+
+
+def _areason(label):
+    def m(cex):
+        return cex.get("kind") == "analysis_not_naive" and label in cex.get("reasons", []) and cex.get("limit", 1) >= 1 \
+            and not cex.get("tua_never_releases")
+    return m
+
+
+MATCHERS["k1_analysis"] = _areason("K1")
+MATCHERS["f3_analysis"] = _areason("F3")
+MATCHERS["f2_analysis"] = _areason("F2")
+
+
+@matcher("f10_multiframe_not_am")
+def _f10(cex):
+    return cex.get("kind") in ("fifo_bound_exceeded", "fp_bound_exceeded", "edf_bound_exceeded") and \
+        cex.get("multiframe_not_accumulatively_monotonic") is True
+
+
 def classify(pid, cexs):
     """returns (known, new): known = list of (finding, first matching cex) (one per
     finding), new = list of counterexamples no known finding accepts."""
